@@ -39,6 +39,7 @@ ELIGIBLE = {
     "set_dv": ("validator:v",), "set_child": (), "reg": (), "unreg": (), "probe": (),
     "del_items": (), "set_items": ("validator:items",),
     "set_sv": ("validator:sv",),
+    "setq_v": ("validator:v",), "set_pv": ("validator:v",), "del_pv": (),
 }
 
 # 'sv' of objs[0] and objs[1] are kept equal by sync_trait(mutual=True): the 2nd
@@ -160,6 +161,7 @@ class World:
                 "cp": T.Property(observe="v"), "items": T.List(CI()),
                 "d": T.Dict(T.Str, CD()), "s": T.Set(CS()), "sup": T.Supports(IFoo),
                 "partner": T.Instance(T.HasTraits), "dv": T.DelegatesTo("partner", prefix="v"),
+                "pv": T.PrototypedFrom("partner", prefix="v"),
                 "child": T.Instance(T.HasTraits),
                 "_dflt_default": _dflt_default, "_get_p": _get_p, "_set_p": _set_p,
                 "_get_cp": T.cached_property(_get_cp), "_v_changed": _v_changed,
@@ -233,6 +235,16 @@ class World:
             f = lambda: setattr(o, "u", val)                      # noqa: E731
         elif k == "set_sv":
             f = lambda: setattr(o, "sv", val)                     # noqa: E731
+        elif k == "setq_v":
+            # a quiet assignment (no notifications for it, all of them afterwards)
+            if op.get("how") == "trait_set":
+                f = lambda: o.trait_set(trait_change_notify=False, v=val) and None   # noqa: E731
+            else:
+                f = lambda: o.trait_setq(v=val) and None          # noqa: E731
+        elif k == "set_pv":
+            f = lambda: setattr(o, "pv", val)                     # noqa: E731
+        elif k == "del_pv":
+            f = lambda: delattr(o, "pv") if "pv" in o.__dict__ else None   # noqa: E731
         elif k == "read_dflt":
             f = lambda: plain(o.dflt)                             # noqa: E731
         elif k == "set_dflt":
@@ -300,7 +312,7 @@ class World:
             d = o.__dict__
             # read-equivalence: an attribute that was never materialised is the same
             # as one holding its default
-            vals = {"v": 0, "sv": 0, "u": 0, "dflt": plain([1, 2]), "fac": plain({"made": 1}), "_pv": None,
+            vals = {"v": 0, "sv": 0, "pv": None, "u": 0, "dflt": plain([1, 2]), "fac": plain({"made": 1}), "_pv": None,
                     "items": plain([]), "d": plain({}), "s": plain(set()), "dv": None}
             for name in list(vals):
                 if name in d:
@@ -310,7 +322,7 @@ class World:
             with warnings.catch_warnings():
                 warnings.simplefilter("ignore")
                 reads = {}
-                for name in ("v", "dv"):
+                for name in ("v", "dv", "pv"):
                     r, e = sut(getattr, o, name)
                     reads[name] = plain(r) if e is None else ("exc", exc_name(e))
             # the cached property is compared by read-equivalence WITHOUT reading it
@@ -446,9 +458,9 @@ class Prop:
         nobj = deep(c, [2, 3], [4])
         handlers = []
         names_otc = ["v", "items", "items_items", "d_items", "s_items", "p", "cp", "dv", "u", "child",
-                     "dflt", "sup", "sv"]
+                     "dflt", "sup", "sv", "pv"]
         names_obs = ["v", "items.items", "d.items", "s.items", "child.v", "cp", "p", "items", "u",
-                     "child", "child.items.items", "sv"]
+                     "child", "child.items.items", "sv", "pv"]
         for j in range(c.randint(2, 6)):
             mech = c.choice(["otc", "obs"])
             handlers.append({"id": "h%d" % j, "mech": mech, "o": c.randrange(nobj),
@@ -468,12 +480,16 @@ class Prop:
         ops = []
         for _ in range(nops):
             o = r.randrange(nobj)
-            k = r.choice(["set_v", "set_v", "set_sv", "set_sv", "set_u", "read_dflt", "set_dflt", "read_fac", "read_p",
+            k = r.choice(["set_v", "set_v", "set_sv", "set_sv", "setq_v", "set_pv", "set_pv",
+                          "del_pv", "set_u", "read_dflt", "set_dflt", "read_fac", "read_p",
                           "set_p", "read_cp", "items", "items", "items", "del_items", "set_items",
                           "d", "d", "s", "s", "tl", "set_sup", "set_dv", "set_child", "reg", "unreg",
                           "probe"])
             op = {"k": k, "o": o}
-            if k in ("set_v", "set_sv", "set_u", "set_dflt", "set_p", "set_dv", "probe"):
+            if k == "setq_v":
+                op["how"] = r.choice(["trait_setq", "trait_set"])
+            if k in ("set_v", "set_sv", "setq_v", "set_pv", "set_u", "set_dflt", "set_p", "set_dv",
+                     "probe"):
                 op["v"] = item(0.12 if k not in ("set_dflt", "set_p", "probe") else 0.0)
             elif k in ("items", "tl"):
                 op["how"] = r.choice(["append", "extend", "extend", "iadd", "insert", "setslice",
